@@ -18,7 +18,7 @@ RULE = ('class models with Any / untyped / _yatiml_extra positions x valid and i
         'code: every constructor call logged is for an object that ends up in the result at a position '
         'whose type admits it, Any/untyped/extra positions hold plain data, nothing named by a tag is '
         'imported or called (canary module, os.system trap).  Non-trivial = at least one injected tag.'
-        'Directed families: untyped regions with tags at values / keys / complex keys, a key'
+        ' Directed families: untyped regions with tags at values / keys / complex keys, a key'
         ' spelt _yatiml_extra, dashed or repeated untyped attributes, merge keys.')
 ASSUMPTIONS = ['yatiml.Loader derives from yaml.SafeLoader (checked on every run)']
 
